@@ -342,7 +342,7 @@ func (g *gen) adjacentOK(prev, next *blk) bool {
 		case kOrdered:
 			return next.start == 1
 		case kHTML:
-			return true // the samples are of kinds 1, 2, 3 and 6, which can interrupt a paragraph
+			return next.level != 7 // start condition 7 cannot interrupt a paragraph
 		}
 		return false
 	case kATX, kSetext, kBreak, kFenced:
@@ -355,6 +355,9 @@ func (g *gen) adjacentOK(prev, next *blk) bool {
 		return next.k == kATX || next.k == kFenced || breakOK
 	case kHTML:
 		// kinds 1-5 end with their end condition; kind 6 needs the blank line
+		if prev.level != 0 {
+			return prev.level <= 5
+		}
 		l := prev.lines[0]
 		return strings.HasPrefix(l, "<!--") || strings.HasPrefix(l, "<pre") || strings.HasPrefix(l, "<?")
 	case kRefDef:
